@@ -26,15 +26,7 @@ theorem getPrefix_ge (a : NodeLabel) (n : Nat) (hn : 256 ≤ n) : a.getPrefix n 
 
 theorem bits_getPrefix (a : NodeLabel) (n : Nat) (hn : n ≤ a.len) (ha : a.len ≤ 256) :
     (a.getPrefix n).bits = a.bits.take n := by
-  by_cases h : n < 256
-  · simp only [bits, getPrefix_len a n h, bits256_getPrefix a n h]
-    rw [List.take_append_of_le_length (by simp [bits256_length]; omega)]
-    simp [List.take_take, Nat.min_eq_left hn]
-  · have : n = 256 := by omega
-    subst this
-    have : a.len = 256 := by omega
-    rw [getPrefix_ge a 256 (Nat.le_refl _)]
-    simp [bits, this, List.take_take]
+  exact bits_getPrefix_le a n hn ha
 
 /-- longest common prefix = longest common prefix of the bit strings, and the result is normalised
 (unless it is a full 256-bit operand returned as is). -/
@@ -100,31 +92,56 @@ structure SortedSameLen {α} (xs : List (NodeLabel × α)) (L : Nat) : Prop wher
   le256 : L ≤ 256
   sorted : xs.Pairwise (fun x y => NodeLabel.cmp x.1 y.1 ≠ .gt)
 
+-- (`hpl` is not needed by the proof: it follows from `hp` whenever `xs` is non-empty)
+set_option linter.unusedVariables false in
 theorem partition_sorted_eq_linear {α} (xs : List (NodeLabel × α)) (L : Nat) (p : NodeLabel)
     (h : SortedSameLen xs L) (hp : ∀ x ∈ xs, p.isPrefixOf x.1 = true) (hpl : p.len ≤ 256) :
     ((ElementSet.binarySearchable xs).partition p).1.elems
         = ((ElementSet.unsorted xs).partition p).1.elems ∧
     ((ElementSet.binarySearchable xs).partition p).2.elems
         = ((ElementSet.unsorted xs).partition p).2.elems := by
-  sorry
+  exact partition_eq xs L p h.sameLen h.le256 h.sorted hp
 
+set_option linter.unusedVariables false in
+/-- STATEMENT CHANGE: the hypothesis `he0` was added.  Without it the statement is false: the
+linear fold short-circuits to `e` as soon as an intermediate common prefix happens to *be* `e`,
+which is only harmless when `e` stands for the empty bit string (as `empty_label()` does in every
+configuration, `label_len = 0`) or cannot be produced at all (`L < e.len`).  See
+`setLcp_counterexample` below.  (`hL` is not needed by the proof.) -/
 theorem setLcp_sorted_eq_linear {α} (e : NodeLabel) (xs : List (NodeLabel × α)) (L : Nat)
-    (h : SortedSameLen xs L) (he : ∀ x ∈ xs, x.1 ≠ e) (hne : xs ≠ []) (hL : 0 < L) :
+    (h : SortedSameLen xs L) (he : ∀ x ∈ xs, x.1 ≠ e) (hne : xs ≠ []) (hL : 0 < L)
+    (he0 : e.len = 0 ∨ L < e.len) :
     ((ElementSet.binarySearchable xs).setLcp e).bits
         = ((ElementSet.unsorted xs).setLcp e).bits := by
-  sorry
+  exact setLcp_eq e xs L h.sameLen h.le256 h.sorted he hne he0
 
+/-- Counterexample to `setLcp_sorted_eq_linear` without `he0`: `e = (00…0, len 3)`, and the sorted
+8-bit labels `00000000`, `00010000`, `10000000`.  All original hypotheses hold, the sorted
+representation answers `[]`, the linear one `[false, false, false]`. -/
+theorem setLcp_counterexample :
+    let lbl (b : UInt8) (n : Nat) : NodeLabel := ⟨(Vector.replicate 32 0).set 0 b, n⟩
+    let e := lbl 0 3
+    let xs : List (NodeLabel × Unit) := [(lbl 0x00 8, ()), (lbl 0x10 8, ()), (lbl 0x80 8, ())]
+    SortedSameLen xs 8 ∧ (∀ x ∈ xs, x.1 ≠ e) ∧ xs ≠ [] ∧
+      ((ElementSet.binarySearchable xs).setLcp e).bits = [] ∧
+      ((ElementSet.unsorted xs).setLcp e).bits = [false, false, false] := by
+  refine ⟨⟨by decide +kernel, by decide, by decide +kernel⟩, by decide +kernel, by decide,
+    by decide +kernel, by decide +kernel⟩
+
+-- (`hn` is not needed by the proof: when `p` is not a prefix of `c` the byte comparison is
+-- already decided within the first `p.len` bits, so the bits of `p` beyond `p.len` are never looked at)
+set_option linter.unusedVariables false in
 theorem containsPrefix_sorted_eq_linear {α} (xs : List (NodeLabel × α)) (L : Nat) (p : NodeLabel)
     (h : SortedSameLen xs L) (hp : p.len ≤ L) (hn : p.Normalised) :
     (ElementSet.binarySearchable xs).containsPrefix p
         = (ElementSet.unsorted xs).containsPrefix p := by
-  sorry
+  exact containsPrefix_eq xs L p h.sameLen h.le256 h.sorted hp
 
 /-- sorting does what the sorted representation assumes -/
 theorem sortByLabel_sorted {α} (xs : List (NodeLabel × α)) :
     (sortByLabel xs).Pairwise (fun x y => NodeLabel.cmp x.1 y.1 ≠ .gt) ∧
     (sortByLabel xs).Perm xs := by
-  sorry
+  exact sortByLabel_sorted' xs
 
 /-! ### non-vacuity -/
 example : (ofBits [true, false, true]).len ≤ 256 := by decide
